@@ -130,6 +130,24 @@ CLAIMS["C03"] = (
     "the structurally checked independence of target part and bounds part of an iteration.",
     "DESIGN.md §2 C03")
 
+CLAIMS["C04"] = (
+    "order-domain abstract interpretation: sibling agreement of the two sweeps inside one abstract "
+    "run, adoption / nearest / no-op post-conditions by preorder consistency; normal-form tie rule; "
+    "call provenance",
+    "On the parsed source, for every weak ordering of the symbolic inputs: one iteration of the "
+    "report sweep (get_status) and of the target sweep map the same state to the same running "
+    "bounds on the conflict-free domain; zone carving never cuts an admissible value; an "
+    "admissible preference becomes the target unchanged, an inadmissible one the nearest admissible "
+    "input value on its side; a proposal with neither power nor bounds leaves the target unchanged "
+    "and the bounds changed only by the idempotent carving; the two-sided tie is decided by "
+    "distance to the preference (polynomial normal form); _Report.adjust_to_bounds is the same "
+    "clamp over the report's own fields. Together with the descending-priority overwrite order "
+    "(C03.ORD) this is the structure behind 'lowest-priority preference wins inside higher-"
+    "priority bounds'. Optimality over conflicting sets is outside the quantifier.",
+    "Trusted: as C03; 'admissible' = inside the range after carving the open zone, zero only when "
+    "asked for exactly (the code's and the report's semantics).",
+    "DESIGN.md §2 C04")
+
 PENDING_REASON = ("no static check is registered for this property yet in this revision of the "
                   "machinery (planned rules are in DESIGN.md §2); nothing is claimed for it")
 
